@@ -7,6 +7,7 @@ package primers
 // verif:bound C19 all A/C/G/T sequences in both cases of length 2..5 (quick) / 2..6 (thorough; the helper clauses to 7); the three concentrations symbolic reals (oligo 1e-9..1e-3, sodium 1e-3..1, magnesium 0..0.1)
 // verif:assume C19 REAL-ARITHMETIC ABSTRACTION: every float64 operation of the code is mapped to exact real arithmetic and math.Log to an uninterpreted strictly monotone function; floating-point rounding is entirely outside the claim
 // verif:assume C19 the oracle takes the parameter values from the package's own tables at run time and fixes only the structure of the formula
+// verif:bound C19 call-independence clause: an oligo of 2..3 symbolic letters evaluated first, then one of 2 (quick) / 2 or 4 (thorough) letters checked against the formula (the harness reads the package's penalty constants after both calls)
 // verif:bound C19 outside the claim: sequences longer than the bound; rounding; the numeric values of the nearest-neighbour parameters (only the strand symmetry of the table is checked)
 
 import "math"
@@ -92,6 +93,37 @@ func Harness_C19_Formula() {
 	mgB := vFloat(0, 0.1)
 	_, dH3, _ := SantaLucia(seq, primerB, saltB, mgB)
 	vAssert(vEqFloat(dH, dH3), "enthalpy-independent-of-concentrations")
+}
+
+// the answer depends on this call's arguments only: an oligo evaluated after another one
+func Harness_C19_AfterAnotherCall() {
+	vRealMode()
+	first := vBytes(2+vChoice(2), "ACGT")
+	second := vBytes(2+2*vChoice(vTier(1, 2)), "ACGT")
+	primer, salt, mg := vFloat(1e-9, 1e-3), vFloat(1e-3, 1), vFloat(0, 0.1)
+	SantaLucia(first, primer, salt, mg)
+	tm, dH, dS := SantaLucia(second, primer, salt, mg)
+	if vFloatIsSpecial(tm) {
+		return
+	}
+	n := len(second)
+	nh, ns := c19NN(second)
+	wantH := initialThermodynamicPenalty.H + nh
+	wantS := initialThermodynamicPenalty.S + ns + 0.368*float64(n-1)*math.Log(salt+140*mg)
+	f := 4.0
+	if vEqStr(second, c19RC(second)) {
+		wantH += symmetryThermodynamicPenalty.H
+		wantS += symmetryThermodynamicPenalty.S
+		f = 1
+		vCover("C19 self-complementary oligo after another call", true)
+	}
+	if vOr(second[n-1] == 'A', second[n-1] == 'T') {
+		wantH += terminalATThermodynamicPenalty.H
+		wantS += terminalATThermodynamicPenalty.S
+	}
+	vAssert(vEqFloat(dH, wantH), "enthalpy-after-another-call")
+	vAssert(vEqFloat(dS, wantS), "entropy-after-another-call")
+	vAssert(vEqFloat(tm, dH*1000/(dS+1.9872*math.Log(primer/f))-273.15), "melting-temperature-after-another-call")
 }
 
 func Harness_C19_Monotone() {
